@@ -29,8 +29,9 @@ import (
 )
 
 type op struct {
-	Kind string `json:"op"`
-	Data []byte `json:"data,omitempty"`
+	Kind   string `json:"op"`
+	Data   []byte `json:"data,omitempty"`
+	WideID bool   `json:"wide_packet_id,omitempty"`
 }
 
 type scenario struct {
@@ -86,7 +87,7 @@ func TestC43(t *testing.T) {
 		}
 		hs[k] = h
 	}
-	var responses, echoes, closes int64
+	var responses, echoes, closes, nonCanonicalPings int64
 	stalls := 0
 
 	run := func(sc scenario, wd time.Duration) (stalled bool) {
@@ -103,12 +104,13 @@ func TestC43(t *testing.T) {
 		expectResponses := 0
 		var expectEcho []byte // payload expected as last packet (may be nil)
 		echoOptional := false
+		nonCanonical := false
 		for _, o := range sc.Ops {
 			switch o.Kind {
 			case "request":
 				_ = c.Send(&packet.StatusRequest{})
 			case "ping":
-				_ = c.SendRaw(append([]byte{0x01}, o.Data...))
+				_ = c.SendRaw(pingPayload(o))
 			case "login":
 				// a login-start as a 1.20 client would send it in the LOGIN state has id 0 and
 				// would be read as a status request with trailing bytes (the statement is silent
@@ -127,8 +129,12 @@ func TestC43(t *testing.T) {
 				requested = true
 				expectResponses = 1
 			case o.Kind == "ping":
-				expectEcho = append([]byte{0x01}, o.Data...)
-				echoOptional = !requested
+				expectEcho = pingPayload(o)
+				// A ping that is not the canonical nine bytes (data behind the long, or the packet
+				// id spelled as a two-byte VarInt) is something a vanilla server refuses; closing
+				// without an echo is accepted for it, an echo that is not the bytes sent is not.
+				echoOptional = !requested || len(o.Data) != 8 || o.WideID
+				nonCanonical = len(o.Data) != 8 || o.WideID
 				expectClosed = true
 			default:
 				expectClosed = true
@@ -222,7 +228,11 @@ func TestC43(t *testing.T) {
 			}
 		case expectEcho != nil && echoOptional:
 			if len(others) > 1 || (len(others) == 1 && !bytes.Equal(others[0].Payload, expectEcho)) {
-				r.Violation("ping-echo-mismatch", "ping without request answered with something other than its exact echo", wit())
+				sig, what := "ping-echo-mismatch", "ping without request answered with something other than its exact echo"
+				if nonCanonical {
+					sig, what = "ping-echo-mismatch:ping-with-extra-data-or-wide-id", "a ping carrying data behind the long / a two-byte packet id was answered with something other than the bytes sent"
+				}
+				r.Violation(sig, what, wit())
 			}
 		default:
 			if len(others) != 0 {
@@ -253,7 +263,16 @@ func TestC43(t *testing.T) {
 			switch o.Kind {
 			case "ping":
 				o.Data = make([]byte, 8)
+				switch rng.Intn(6) {
+				case 0:
+					o.Data = make([]byte, 9+rng.Intn(8)) // data behind the long
+				case 1:
+					o.WideID = true // packet id 1 spelled 81 00
+				}
 				rng.Read(o.Data)
+				if len(o.Data) != 8 || o.WideID {
+					nonCanonicalPings++
+				}
 			case "unknown", "login":
 				o.Data = make([]byte, rng.Intn(6))
 				rng.Read(o.Data)
@@ -295,6 +314,7 @@ func TestC43(t *testing.T) {
 	}
 	r.Set("status_responses_checked", responses)
 	r.Set("ping_echoes_checked", echoes)
+	r.Set("pings_with_extra_data_or_wide_packet_id", nonCanonicalPings)
 	r.Set("closures_observed", closes)
 }
 
@@ -303,4 +323,13 @@ func trunc(b []byte, n int) []byte {
 		return b[:n]
 	}
 	return b
+}
+
+// pingPayload is the frame payload of a ping op as sent: packet id 1 (one byte, or the
+// two-byte VarInt 81 00) followed by the op's data.
+func pingPayload(o op) []byte {
+	if o.WideID {
+		return append([]byte{0x81, 0x00}, o.Data...)
+	}
+	return append([]byte{0x01}, o.Data...)
 }
